@@ -189,7 +189,8 @@ def same_quantity(a, b):
         return a == b
     if a is None or b is None:
         return False
-    return type(a) is type(b) and a.value == b.value and a.unit == b.unit
+    # equal as quantities (the library's own notion: same kind, same magnitude up to rounding, whatever the unit label)
+    return type(a) is type(b) and si.close(si.q_si(a), si.q_si(b), 1e-12, 1e-300)
 
 
 def inspect(acc, case, m, tag, tmp, do_io):
